@@ -1,5 +1,6 @@
 """C04 - what is stored is what is fetched: values and keys survive the round trip."""
 import bz2
+import copy
 import json
 import lzma
 import pickle
@@ -47,6 +48,10 @@ def gen_value(rng, kind, sizes):
     if kind == "bytes":
         n = rng.choice(sizes)
         r = rng.random()
+        if r < 0.15 and n >= 1:
+            body = bytes(rng.randrange(256) for _ in range(min(n, 32))) * (n // 32 + 1)
+            tail = rng.choice([b"\r", b"\r\r", b"\r\n", b"\n", b"\r\n\r"])
+            return (body[: max(n - len(tail), 0)] + tail)[-n:] if n >= len(tail) else tail[:n]
         if r < 0.35:
             frag = rng.choice([b"\r\n", b"END\r\n", b"VALUE a 0 1\r\nx\r\nEND\r\n", b"STORED\r\n", b"\x00\xff"])
             return (frag * (n // len(frag) + 1))[:n]
@@ -79,6 +84,11 @@ def gen_value(rng, kind, sizes):
 class C04(Prop):
     id = "C04"
     minimise_kwargs = False     # the scenario carries expectations derived from the configuration
+
+    def must_keep_step(self, st):
+        # the expectation list says what the store phase leaves behind: only fetches may be dropped
+        return st["t"] != "call" or st["m"] not in ("get", "gets", "gat", "gats", "get_many", "gets_many",
+                                                    "__getitem__")
     level = "exploration"
     rule = ("work unit = one seed -> one fault-free history on a Client (sometimes PooledClient / single-server "
             "HashClient): a store phase (set / add on fresh key / set+replace / set+gets+cas / set_many / "
@@ -97,7 +107,7 @@ class C04(Prop):
 
     def plan(self, tier):
         if tier == "quick":
-            return {"units": 30000, "budget_s": 90, "block": 200}
+            return {"units": 12000, "budget_s": 90, "block": 100}
         return {"units": 900000, "budget_s": 1500, "block": 400}
 
     def gen(self, rng, idx, tier):
@@ -158,7 +168,7 @@ class C04(Prop):
                 uniq += 1
                 if kind == "bytes":      # make every stored value unique so a value identifies its key
                     tag = b"<%d>" % uniq
-                    v = (v[: max(len(v) - len(tag), 0)] + tag)[: max(len(v), len(tag))] if len(v) >= len(tag) else v + tag
+                    v = (tag + v[len(tag):]) if len(v) >= len(tag) else v + tag
                     if len(v) > cap:
                         v = v[:cap]
                 return v
@@ -218,8 +228,26 @@ class C04(Prop):
             if net:
                 st["net"] = net
             steps.append(st)
-        return [{"property": self.id, "world": w, "steps": steps, "expect": expect,
-                 "cfg": {"prefix": E(prefix), "unicode": unicode_ok, "encoding": encoding, "serde": serde}}]
+        base = {"property": self.id, "world": w, "steps": steps, "expect": expect,
+                "cfg": {"prefix": E(prefix), "unicode": unicode_ok, "encoding": encoding, "serde": serde}}
+        if rng.random() < 0.25:
+            # every cut position in the last bytes of one single-key reply (value end, CR|LF, END line)
+            singles = [i for i, st in enumerate(steps) if st["m"] in ("get", "gets", "gat", "gats", "__getitem__")]
+            if singles:
+                res = engine.execute(copy.deepcopy(base), ())
+                i = rng.choice(singles)
+                rec = res.by_step(i)
+                if rec is not None and rec.received > 2:
+                    L = rec.received
+                    out = [base]
+                    for cut in range(max(1, L - 12), L):
+                        v = copy.deepcopy(base)
+                        v["steps"][i]["net"] = {"seg": [cut, 0]}
+                        v["world"]["knobs"]["recv_size"] = max(w["knobs"]["recv_size"], 1 << 20)
+                        v["endcut"] = L - cut
+                        out.append(v)
+                    return out
+        return [base]
 
     # ---- independent expectations
     def expected_fetch(self, cfg, v, kind):
@@ -236,6 +264,12 @@ class C04(Prop):
         return v
 
     def check_stored(self, cfg, data, flags, v):
+        try:
+            return self._check_stored(cfg, data, flags, v)
+        except Exception:        # undecodable = not a faithful serialisation
+            return False
+
+    def _check_stored(self, cfg, data, flags, v):
         """Is (data, flags) on the server a faithful serialisation of v?  Decoded independently."""
         serde = cfg["serde"] or {}
         sk = serde.get("kind", "none")
@@ -387,7 +421,8 @@ class C04(Prop):
     def probe_names(self):
         return ("key-exactly-250-bytes", "unicode-key", "value-larger-than-recv-size", "value-at-item-limit",
                 "one-shot-iterator-keys", "set-of-keys", "dict-view-keys", "duplicate-keys", "compressed-flag-set",
-                "pickle-object-roundtrip", "value-with-protocol-text")
+                "pickle-object-roundtrip", "value-with-protocol-text", "cut-between-value-CR-and-LF",
+                "value-ending-in-CR")
 
     def probes(self, scn, res):
         p = {}
@@ -408,6 +443,10 @@ class C04(Prop):
                     p["value-with-protocol-text"] = 1
             if kind == "obj":
                 p["pickle-object-roundtrip"] = 1
+            if isinstance(vv, bytes) and vv.endswith(b"\r"):
+                p["value-ending-in-CR"] = 1
+        if scn.get("endcut") == 6:
+            p["cut-between-value-CR-and-LF"] = 1
         for st in scn["steps"]:
             c = st.get("coll")
             if c == "iter":
